@@ -58,7 +58,7 @@ func (c *Config) Check() error {
 			if fnType.Method {
 				requiredNumIn = 3 // As first argument of method is receiver.
 			}
-			if fnType.Type.NumIn() != requiredNumIn || fnType.Type.NumOut() != 1 {
+			if fnType.Type.NumIn() != requiredNumIn || fnType.Type.NumOut() != 1 || fnType.Type.IsVariadic() {
 				return fmt.Errorf("function %s for %s operator does not have a correct signature", fn, op)
 			}
 		}
